@@ -45,7 +45,7 @@ def run(ctx):
         ctx.equal('AES.sboxinvtable', t['sboxinv'], K.aes_sbox_inv(), AES, 'inverse S-box')
         for nm in ('sboxtable', 'sboxinvtable'):
             v = t['cenv'][nm]
-            ctx.check('AES.%s-ring' % nm, v[0] == 'call' and T.kwargs_of(v).get('size') == T.C(8), 'table is not a Poly over bytes (size=8)', AES)
+            ctx.check('AES.%s-ring' % nm, v[0] == 'call' and T.call_arg(v, 'size', 1) == T.C(8), 'table is not a Poly over bytes (size=8)', AES)
         ctx.equal('AES.size', ctx.pyval(t['cenv'].get('size', T.NONE)), 128, AES, 'class attribute size')
         # gmul: tabulate the guarded formula on all byte pairs
         sm = ctx.summ(AES, 'gmul')
